@@ -161,16 +161,37 @@ def loss_case(rnd, ncalls, timers, explicit, introspected, dup_cb, local=False):
         return '%s: could not establish: %s %r' % (what, f, fired)
     conn = fired[0]
     ran = []
-    conn.notifyOnDisconnect(lambda c, r: ran.append(('conn0', r)))
+    if rnd.random() < 0.5:
+        conn.notifyOnDisconnect(lambda c, r: ran.append(('conn0', r)))
+    else:
+        # a one-shot callback that deregisters itself while the loss is dispatched: those registered after it still run
+        def conn0(c, r):
+            ran.append(('conn0', r))
+            conn.cancelNotifyOnDisconnect(conn0)
+        conn.notifyOnDisconnect(conn0)
     cb1 = lambda c, r: ran.append(('conn1', r))
     conn.notifyOnDisconnect(cb1)
     if dup_cb:
         conn.notifyOnDisconnect(cb1)
     outs = []
+    observed = []
+    retried = []
+    retrying = ncalls >= 2 and rnd.random() < 0.5
     for i in range(ncalls):
         out = []
-        conn.callRemote('/o', 'M%d' % i, interface='org.e.I', destination='org.e', timeout=(5 + i) if timers[i] else None).addBoth(out.append)
+        d = conn.callRemote('/o', 'M%d' % i, interface='org.e.I', destination='org.e', timeout=(5 + i) if timers[i] else None)
+        if retrying and i == 0:
+            # a caller that retries a failed call from its errback - also when the failure is the loss of the connection: the
+            # other outstanding calls are failed all the same
+            def retry(f, observed=observed):
+                observed.append(f)
+                retried.append(conn.callRemote('/o', 'Again', interface='org.e.I', destination='org.e'))
+                return None
+            d.addErrback(retry)
+        d.addBoth(out.append)
         outs.append(out)
+    if retrying:
+        what += ', call 0 retried from its errback'
     if ncalls >= 2 and timers[0] and dup_cb:
         # the caller gives one call up (Deferred.cancel()): it is still unanswered when the connection is lost
         outs[0][:] = []
@@ -179,6 +200,7 @@ def loss_case(rnd, ncalls, timers, explicit, introspected, dup_cb, local=False):
         dcan.cancel()
     proxies = []
     cbs = {}
+    second = []
     iface = interface.DBusInterface('org.verif.P', interface.Method('M'), noRegister=True)
     for k in range(explicit):
         got = []
@@ -196,8 +218,17 @@ def loss_case(rnd, ncalls, timers, explicit, introspected, dup_cb, local=False):
     for name, got in proxies:
         if len(got) != 1 or isinstance(got[0], failure.Failure):
             return '%s: proxy %s not obtained: %r' % (what, name, got)
-        cbs[name] = lambda o, r, name=name: ran.append((name, r))
-        got[0].notifyOnDisconnect(cbs[name])
+        if rnd.random() < 0.5:
+            cbs[name] = lambda o, r, name=name: ran.append((name, r))
+            got[0].notifyOnDisconnect(cbs[name])
+        else:
+            def first(o, r, name=name):
+                ran.append((name, r))
+                o.cancelNotifyOnDisconnect(cbs[name])           # deregisters itself during the dispatch
+            cbs[name] = first
+            got[0].notifyOnDisconnect(first)
+            got[0].notifyOnDisconnect(lambda o, r, name=name: ran.append((name + '_second', r)))
+            second.append(name + '_second')
     renamed = {}
     if proxies and rnd.random() < 0.5:
         # the only callback of a proxy is withdrawn and another one registered later: the proxy still counts as interested
@@ -224,17 +255,21 @@ def loss_case(rnd, ncalls, timers, explicit, introspected, dup_cb, local=False):
         reason = lose(ep)
     except Exception as e:
         return '%s: connectionLost raised %s: %s' % (what, type(e).__name__, e)
-    want = ['conn0', 'conn1'] + (['conn1'] if dup_cb else []) + [renamed.get(n, n) for n, _ in proxies]
+    want = ['conn0', 'conn1'] + (['conn1'] if dup_cb else []) + [renamed.get(n, n) for n, _ in proxies] + second
     if sorted(n for n, _ in ran) != sorted(want):
         return '%s: disconnect callbacks run %r, expected %r' % (what, sorted(n for n, _ in ran), sorted(want))
     if any(r is not reason for _, r in ran):
         return '%s: a disconnect callback received a different reason' % what
     for i, out in enumerate(outs):
+        if retrying and i == 0:
+            if observed != [reason]:
+                return '%s: the retrying caller saw the failures %r (expected the loss reason once)' % (what, observed)
+            continue
         if len(out) != 1 or out[0] is not reason:
             return '%s: outstanding call %d completed with %r (expected one failure with the loss reason)' % (what, i, out)
     if clock.getDelayedCalls():
         return '%s: %d timers still armed after the loss' % (what, len(clock.getDelayedCalls()))
-    if conn._pendingCalls:
+    if len(conn._pendingCalls) != len(retried):
         return '%s: calls still recorded as pending' % what
     n_ran, n_out = len(ran), [len(o) for o in outs]
     clock.advance(1000)
